@@ -13,12 +13,9 @@ GLUE = ("Trusted: Coq kernel, extraction (ExtrOcamlBasic only), ocaml/driver.ml,
         "modelled, not verified. ")
 
 CHECKS = {
- "C01": C("exploration",
-   "The executable Gallina model of the whole crate (coq/*.v) is run against the crate on every history (observations and storage "
-   "journals compared) and the crate is judged against the append-only list specification: corpus, bounded-exhaustive histories over a "
-   "9-letter alphabet, seeded random histories with reopen after arbitrary prefixes, and a core crossing 8192 and 32768 blocks. "
-   "Refinement theorems (Refine.v) are in progress; until they are pinned the claim is exploration.",
-   "DESIGN.md 6.1", GLUE, "correspondence check against the Coq model + list-model oracle"),
+ "C01": C("proof",
+   "Partial proof. Theorems coq/props/C01.v establish the components the refinement rests on, each for all inputs: storage semantics (read-after-write, non-interference of disjoint writes, write at the end appends, delete zero-fills or truncates exactly as random-access-memory, shrink-then-grow exposes zeros); journal order of an append (block data at offset = byte length, then the oplog entry, then the flush group, header, truncate); the byte-offset walk over a tree whose lookups return consistent sizes equals the sum of the roots and leaves strictly left of the block; reference-tree node sizes are the block-size sums (with C05: the tree built by any batching IS the reference tree; C08: has() is the range semantics; C13: get of a missing block has no side effect). NOT proved: the single end-to-end refinement theorem across flush / reopen / replay. That composition is decided on every run by the Coq model executed against the crate (observations and storage journals compared operation by operation) under the list-model oracle: corpus, bounded-exhaustive histories over a 9-letter alphabet, seeded random histories with reopen after arbitrary prefixes, a core crossing 8192 and 32768 blocks.",
+   "DESIGN.md 6.1", GLUE, "Coq proofs of the components + correspondence check of the executable model + list-model oracle"),
  "C02": C("fault_enumeration",
    "Every crash point of every generated history: all prefixes of the journal of mutating storage operations, plus singleton and "
    "co-singleton subsets of each unordered flush group; each crash state is recovered on the crate and on the Coq model, judged by the "
@@ -28,25 +25,21 @@ CHECKS = {
    "Replication worlds (writer growth, clears, replica reopen, full and partial upgrades, block/hash/seek requests built from the "
    "replica's own missing-node query) run on crate and model; oracle: honest proof accepted, replica blocks byte-identical, lengths.",
    "DESIGN.md 6.3", GLUE, "correspondence check + replication oracle"),
- "C04": C("exploration",
-   "Every single-field alteration of honest proofs plus systematic forgeries applied to copies of reachable replica states on crate "
-   "and model; oracle: refusal leaves all observations and all four files unchanged, acceptance leaves only writer data.",
-   "DESIGN.md 6.4", GLUE, "alteration enumeration + correspondence"),
- "C05": C("exploration",
-   "Every node in the tree store, in oplog entries and in served proofs, header root hash and every stored/served signature compared "
-   "with a reference computed by structural recursion from the blocks (independent Python implementation of the v10 scheme).",
-   "DESIGN.md 6.5", GLUE, "reference-tree oracle + correspondence"),
- "C06": C("exploration",
-   "Independent JS-layout reader applied to the raw files at every operation boundary; synthetic JS-valid oplogs (either slot, all "
-   "bit states, entries with partial flags, trailing garbage) opened by the crate; five-step interop scenario vs certified hashes.",
-   "DESIGN.md 6.6", GLUE, "independent reader/writer oracle + golden hashes + correspondence"),
+ "C04": C("proof",
+   "Theorems coq/props/C04.v, with NO assumption about the hash or signature functions (reduction style): if the verifier's climb ends in a hash equal to the trusted one (stored node or signed root), then the block VALUE it accepted is the writer's block, every sibling hash on the path is the writer's, a hash section's bottom hash is the writer's \u2014 or two different byte strings with the same BLAKE2b hash are exhibited; an accepted upgrade signature covers exactly (hash of the root list, length, fork) and equal signed messages bind length, fork and the root list (or a collision); structure of what verify_proof checked whenever it accepts. Sizes of the bottom nodes of hash/seek sections are bound only in sum (proved: parent_hash_length_split) \u2014 the property's carve-out. Partial: composition into the replica invariant across storage (byte offsets, files), refusal-is-a-no-op at the Core level (CoreFacts.v, in progress) and Ed25519 unforgeability are not proved; every single-field alteration and systematic forgery is applied to reachable replica states on crate and model on every run.",
+   "DESIGN.md 6.4", GLUE, "Coq proof (hash-chain reduction to explicit collisions) + alteration enumeration with correspondence"),
+ "C05": C("proof",
+   "Theorems coq/props/C05.v, for every block sequence and every cutting into batches: the incremental changeset (binary-increment carry chain of append_root) yields exactly the roots of the reference tree defined by structural recursion (v10 leaf/parent hash layouts, flat in-order numbering), the right length and byte length, and EVERY node it pushes (hence every node persisted in an oplog entry or the tree store, or served in a proof) is the reference node at its flat index; the signature is the signature over (tree namespace, hash of the reference roots, length, fork) and verifies under the satisfiable hypothesis verify(pk(sk), m, sign(sk, m)); reference node sizes are block-size sums; no overflow panic when the total size fits u64. Partial: that flush, reopen and replay carry these nodes to and from storage unchanged is covered by the C06 round-trip theorems and, on every run, by the independent reference-tree oracle (Python hashlib BLAKE2b; Ed25519 verification by ed25519-dalek called directly) over raw tree/oplog bytes and every node of served proofs.",
+   "DESIGN.md 6.5", GLUE, "Coq proof (binary-increment invariant: incremental tree = recursive reference) + reference-tree oracle"),
+ "C06": C("proof",
+   "Theorems coq/props/C06.v: header, oplog entry (all eight combinations of the flag bits 2/4/8), CRC frame (header bit, partial bit, 30-bit length) and 40-byte tree node decode back to themselves with nothing left over; a sequence of well-formed frames carrying the current header bit is scanned completely with the fuel Oplog::open uses (termination), stopping at the first missing/torn/other-bit frame; trailing partial entries, and only those, are dropped; the slot rule (a flush writes the non-current slot, which becomes current). Page (de)serialisation is in C08. Partial: 'reader of the four files = API state in every reachable state' is decided on every run by the independent JS-layout reader (tools/jsfmt.py) at every operation boundary, by synthetic JS-valid oplogs opened by the crate, and by the certified hashes of the five-step interop scenario; user_data/reorgs are outside the model.",
+   "DESIGN.md 6.6", GLUE, "Coq proof (codec round trips, scan termination) + independent reader/writer + golden hashes"),
  "C07": C("fault_enumeration",
    "As C02, plus every proper byte prefix of the write in progress (all prefixes for writes up to 64 bytes; framing boundaries, sector "
    "boundaries and seeded cuts for longer ones).", "DESIGN.md 6.7", GLUE, "torn-write enumeration on implementation and Coq model"),
- "C08": C("exploration",
-   "has() on every index below the length and on page boundaries, contiguous length against its definition, for a writer crossing "
-   "8192/32768 blocks (65536 in the thorough tier) with page-straddling clears, a replica holding blocks pages apart, reopen and a "
-   "crash inside a flush.", "DESIGN.md 6.8", GLUE, "exhaustive has() sweep + correspondence"),
+ "C08": C("proof",
+   "Theorems coq/props/C08.v, for unbounded indices (any number of 32768-bit pages): has() after set_range/apply is exactly the range semantics; every page whose content changed is dirty and clean pages serialise unchanged (a flush writes every changed page); page bytes <-> bits exact at every page index and reload of pages exact; the contiguous-length hint maintained by the crate's incremental rule IS the smallest index not held after every update (including termination of the skip loop within its fuel, by a pigeonhole argument); replaying the oplog entries over ANY mixture of old and new bitfield pages yields the exact bitfield and the exact contiguous length (crash recovery). Partial: that a crash leaves such a mixture and that no bit at or beyond the length is ever set are established by the correspondence runs (has() swept over every index of cores crossing 8192/32768/65536 blocks, sparse replica, crash inside a flush).",
+   "DESIGN.md 6.8", GLUE, "Coq proof (range semantics, pigeonhole, replay invariant) + exhaustive has() sweep"),
  "C09": C("exploration",
    "Boundary request tuples on six core shapes, structurally arbitrary proofs and the C04 alteration set, under catch_unwind and a "
    "watchdog in a build with overflow checks; the model has explicit Panic/OutOfFuel outcomes at every arithmetic, index and loop site "
@@ -63,22 +56,23 @@ CHECKS = {
    "DESIGN.md 6.11",
    GLUE + "Hostile vector length prefixes (Vec::with_capacity) are outside C11 (only prefixes of valid encodings are quantified).",
    "Coq proof (round-trip/monotonicity lemmas) + correspondence check"),
- "C12": C("fault_enumeration",
-   "Histories with make_read_only at a random position: raw bytes of all four files searched for every 16-byte window of the secret, "
-   "second call / append / reopen / open-with-key checks with empty journals, and all crash points inside make_read_only.",
-   "DESIGN.md 6.12", GLUE, "crash enumeration + byte search + correspondence"),
- "C13": C("exploration",
-   "Events drained after every call from 1-3 subscribers on writers and replicas (accepted and refused proofs, gets of held/missing "
-   "indices, empty batches) compared with the event specification and with the model.",
-   "DESIGN.md 6.13", GLUE, "event oracle + correspondence"),
- "C14": C("exploration",
-   "The same histories (writer + replication + reopen) on {instrumented, random-access-memory, random-access-disk} x {no cache, default, "
-   "150-byte cache, cache feature not compiled}: observations and file bytes compared with the baseline and the model.",
-   "DESIGN.md 6.14", GLUE, "configuration sweep + correspondence"),
- "C15": C("exploration",
-   "The real SharedCore under a deterministic scheduler with a preemption point at every storage operation and lock acquisition "
-   "(2-4 tasks x 1-4 calls), judged by a linearizability checker; the method shapes of shared_core.rs are re-derived on every run.",
-   "DESIGN.md 6.15", GLUE, "schedule exploration + linearizability checker"),
+ "C12": C("proof",
+   "Theorems coq/props/C12.v, for every state: append without secret key returns NotWritable and changes nothing at all (same core, same disk, no storage operation, no event); make_read_only on a core without secret returns false and changes nothing; on a writer it erases the secret from key pair and header whatever the outcome; secret-freedom as NON-INTERFERENCE: the complete outcome of make_read_only (new core, every byte of the four files, journal, events, result) is identical for any two secret keys, so no byte it writes depends on the key; the rewritten header encodes the key pair as public key + zero byte. Partial: crash points inside make_read_only, reopen read-only, open-with-key rejection and the absence of the key in bytes written earlier are decided on every run by tools/c12.py (all crash points recovered; raw bytes of all four files searched for every 16-byte window of the secret). The oplog-level crash theorems (Crash.v) are in progress.",
+   "DESIGN.md 6.12", GLUE, "Coq proof (no-op and non-interference theorems) + crash enumeration + byte search"),
+ "C13": C("proof",
+   "Theorems coq/props/C13.v, for every state and input: a successful non-empty append sends Upgrade then Have(old length, batch size); an accepted proof sends Upgrade iff it carried an upgrade section, then Have(index,1) iff it carried a block; get of an index not held sends exactly one Get(index), returns None and touches nothing; clear, missing_nodes, make_read_only send nothing; every refused, failed or empty call sends nothing; create_proof sends only the Get of its internal read of a block that is not held (interpretive decision of DESIGN 5.2). Partial by nature: identical delivery to every subscriber is async_broadcast behaviour, covered with 1-3 subscribers and < 32 undrained events on every run, where the crate's event stream is compared with the model's and with the event specification.",
+   "DESIGN.md 6.13", GLUE, "Coq proof (exact event list of every operation) + event oracle with correspondence"),
+ "C14": C("proof",
+   "Theorems coq/props/C14.v: a lookup through the node cache (consulted before the unflushed map and the store) returns exactly "
+   "what the cache-less lookup returns, in both lookup modes, for every cache content produced by the crate's insertion rule (insert "
+   "what was just looked up), under ANY eviction (sub-map), and across updates that keep nodes immutable per index. Partial: the "
+   "lift from single lookups to whole operations, the equivalence of the three storage backends (file semantics of Storage.v), moka "
+   "and the OS are not proved; they are covered on every run by the sweep {instrumented, random-access-memory, random-access-disk} "
+   "x {no cache, default, 150-byte cache, feature not compiled} comparing observations and file bytes with the baseline and the model.",
+   "DESIGN.md 6.14", GLUE, "Coq proof (cache-validity invariant) + configuration sweep"),
+ "C15": C("proof",
+   "Theorems coq/props/C15.v, for any number of tasks, calls, micro-steps and EVERY schedule: with each method a single critical section of one mutex (one micro-step per storage operation), shared state and all results equal the atomic execution of the calls in completion order; per-task results and program order preserved; at most the lock holder is ever inside a method (no call observes a partially applied operation); the order respects real time; append results of an append-only log are gap-free increasing lengths. The premise 'every trait method of SharedCore is one critical section' is re-derived from src/replication/shared_core.rs on every run (SharedShape.v, closed by vm_compute). Partial by nature: fairness/wake-ups of async_lock::Mutex and the executor are run-time behaviour, exercised by the deterministic-scheduler runs (preemption at every storage operation and lock acquisition) judged by a linearizability checker.",
+   "DESIGN.md 6.15", GLUE, "Coq proof (mutex serializability) + source-derived shape obligation + schedule exploration"),
 }
 NOT_YET = {}
 
